@@ -315,6 +315,8 @@ ResultSat(r) ==
   /\ Chk("C12", ~bb.cancelSeen, "C12_ResultAfterCancel", r.kind)
   /\ Chk("C01", NoDup(r.sol), "C01_DupInSolution", r.sol)
   /\ Chk("C01", why = "", "C01_" \o why, r.sol)
+  \* "and vice versa": a solution is only reported for a problem that has one
+  /\ Chk("C02", ~RuleOn("C02") \/ Satisfiable(u, p), "C02_SolutionButUnsatisfiable", r.sol)
   /\ Chk("C05", Supported(u, p, S), "C05_Unsupported", S \ SupportedSet(u, p, S))
   /\ Chk("C07", ~(cf /\ p.soft = <<>>) \/ S = clos, "C07_NotPreferred", <<r.sol, clos>>)
   /\ Chk("C08", ~dbf \/ DirectBest(u, p) \subseteq S, "C08_DirectDowngraded", <<r.sol, DirectBest(u, p)>>)
@@ -361,6 +363,24 @@ ResultUnsat(r) ==
                        \o (IF p.soft # <<>> THEN <<"soft">> ELSE <<>>)
                        \o (IF bb.prevSolves > 0 THEN <<"reused">> ELSE <<>>)
                        \o (IF wb.on /\ wb.nlearnt > 0 THEN <<"learnt">> ELSE <<>>))
+
+\* C04 (rendering) on a graph that was assembled from the facts of the universe
+\* instead of being produced by a solve (harness/src/synth.rs).  Conflict.tla decides
+\* whether the graph is a conflict report in the sense of C03; only such graphs are
+\* required to render within the bound (r.msg # "" : the renderer panicked or
+\* overflowed the sink)
+ResultSynth(r) ==
+  LET G  == r.graph
+      ok == /\ NodesDistinct(G)
+            /\ \A e \in DOMAIN G.edges : EdgeTrue(u, p, G, e)
+            /\ \A g \in ReqGroups(G) : GroupExact(u, G, g)
+            /\ Reachable(G)
+            /\ Refutes(u, G)
+  IN
+  /\ Chk("C04", ~ok \/ r.msg = "", "C04_RenderFailed", r.msg)
+  /\ Chk("C04", ~ok \/ r.msg # "" \/ RenderOK(G, r.lines), "C04_RenderTooLong", <<r.lines, Len(G.edges)>>)
+  /\ Cover(IF ok THEN <<"synthconflict">> \o (IF HasReqCycle(G) THEN <<"synthcycle">> ELSE <<>>)
+                 ELSE <<"synthrejected">>)
 
 ResultCancelled(r) ==
   /\ Chk("C12", bb.cancelSeen, "C12_SpuriousCancel", r.v)
@@ -409,6 +429,7 @@ Result ==
             /\ Chk("C02", ~Satisfiable(u, p), "C02_UnsatButSatisfiable", 0)
             /\ Cover(<<"unsat", "oracle">>)
        [] r.kind = "cancelled" -> ResultCancelled(r)
+       [] r.kind = "synth" -> ResultSynth(r)
        [] r.kind = "panic" -> Fail("C04_Panic", <<r.phase, r.site, r.msg>>)
        [] r.kind = "deadlock" -> Fail("C10_Deadlock", <<r.phase>>)
        [] r.kind = "timeout" -> Fail("C04_Timeout", <<r.phase>>)
